@@ -9,13 +9,17 @@ git -C /tmp/mutrepo checkout -q -- . ; git -C /tmp/mutrepo checkout -q --detach 
 rsync -a --exclude target /verif/sim/ /tmp/mutverif/sim/ && sed -i 's#path = "/repo"#path = "/tmp/mutrepo"#' /tmp/mutverif/sim/Cargo.toml
 cp /verif/known_findings.json /tmp/mutverif/
 mkdir -p /tmp/mutverif/miri && rsync -a --exclude target /verif/sim/miri/ /tmp/mutverif/miri/ && sed -i 's#path = "/repo"#path = "/tmp/mutrepo"#' /tmp/mutverif/miri/Cargo.toml
-echo "# $(date -u +%FT%TZ) machinery $(git -C /verif rev-parse --short HEAD) repo $(git -C /repo rev-parse --short HEAD)" > "$OUT"
+[ -n "${APPEND:-}" ] || echo "# $(date -u +%FT%TZ) machinery $(git -C /verif rev-parse --short HEAD) repo $(git -C /repo rev-parse --short HEAD)" > "$OUT"
 for ID in $IDS; do
   P=${ID%%-*}; PATCH=/verif/seeded/$ID/patch.diff
-  cd /tmp/mutrepo; git checkout -q -- .
+  cd /tmp/mutrepo; git reset -q --hard; git clean -fdq src tests 2>/dev/null
   HOW=apply
   if ! git apply "$PATCH" 2>/dev/null; then
-    if git apply --3way "$PATCH" >/dev/null 2>&1; then HOW=3way; git reset -q; else echo "$ID $P PATCH-DOES-NOT-APPLY" >> "$OUT"; git checkout -q -- .; continue; fi
+    # the seed was written against an earlier HEAD (before later hook / fix commits): retry with
+    # reduced context, then with patch(1) fuzz
+    if git apply -C1 "$PATCH" 2>/dev/null; then HOW=apply-C1
+    elif patch -p1 -F3 -s --no-backup-if-mismatch < "$PATCH" >/dev/null 2>&1; then HOW=patch-fuzz
+    else echo "$ID $P PATCH-DOES-NOT-APPLY" >> "$OUT"; git reset -q --hard; continue; fi
   fi
   (cd /tmp/mutverif/sim && CARGO_NET_OFFLINE=true cargo build --release --offline >/dev/null 2>&1) || { echo "$ID $P BUILD-FAILED" >> "$OUT"; continue; }
   RES=$(VERIF_DIR=/tmp/mutverif timeout 1500 /tmp/mutverif/sim/target/release/tausim check $P 2>&1); RC=$?
@@ -27,5 +31,5 @@ for ID in $IDS; do
   fi
   echo "$ID $P exit=$RC ($HOW) $KEY" >> "$OUT"
 done
-git -C /tmp/mutrepo checkout -q -- .
+git -C /tmp/mutrepo reset -q --hard
 echo "# done: $(grep -c 'exit=1' "$OUT") of $(grep -c '^C' "$OUT") detected" >> "$OUT"
